@@ -93,12 +93,14 @@ def run(ck, prog, tier, load):
         ck.ob("C10-a.mutation-after-check", "capture_match_info_fn|%s" % cname(cm.term(bb)).split("::")[-1], ok, cm, bb, "the resource path is modified only on the edge where check_fn returned true (a rejected candidate leaves no trace)")
 
     # ---- (b) regex construction ------------------------------------------------------
-    re_locals = [i for i, l in enumerate(parse.locals) if l.get("n") == "re" and "String" in l["ty"]]
-    ck.anchor("C10-b", len(re_locals), 1, "local `re` in ResourceDef::parse")
+    # RE = the String variables of parse: the expression being assembled (before and after wrapping in group 1)
+    rn = [bb for bb, t in parse.calls(r"Regex::new$")]
+    re_locals = user_locals(parse, r"^alloc::string::String$")
+    ck.anchor("C10-b", len(re_locals), 1, "String variable(s) of ResourceDef::parse (the expression being assembled)")
     pushes = []
     for bb, t in parse.calls(r"alloc::string::String::push_str$"):
         bl = base_local(parse, t["args"][0])
-        if bl is not None and parse.lname(bl) == "re":
+        if bl is not None and bl in re_locals:
             pushes.append((bb, t))
     ck.anchor("C10-b", len(pushes), 4, "re.push_str(..) in ResourceDef::parse")
     for i, (bb, t) in enumerate(pushes):
@@ -113,25 +115,30 @@ def run(ck, prog, tier, load):
         else:
             kind, ok = "raw %s" % short(arg, 3), False
         ck.ob("C10-b.fragment-provenance", "push#%d|%s" % (i, kind.split(" ")[0]), ok, parse, bb, "text appended to the regex is %s (user pattern text must go through escape or parse_param)" % kind)
-    rn = [bb for bb, t in parse.calls(r"Regex::new$")]
     ck.anchor("C10-b", len(rn), 1, "Regex::new in ResourceDef::parse")
 
-    def var_edge(name, val):
+    def var_edge(locs, val):
         def p(c, lab):
             c2, tr = strip_not(c, True)
-            return isinstance(lab, bool) and is_local_named(c2, name) and (lab if tr else not lab) is val
+            return isinstance(lab, bool) and is_local(c2, locs) and (lab if tr else not lab) is val
         return p
 
-    dollar = [bb for bb, t in parse.calls(r"String::push$") if parse.op_expr(t["args"][1])[2] == ord("$") and parse.lname(base_local(parse, t["args"][0]) or 0) == "re"]
+    dollar = [bb for bb, t in parse.calls(r"String::push$") if parse.op_expr(t["args"][1])[2] == ord("$") and base_local(parse, t["args"][0]) in re_locals]
     pfx = [bb for bb, t in pushes if any(k[3] == "(/|$)" for k in e_consts(parse.op_expr(t["args"][1])))]
+    # PFX = the bool parameter under whose true edge '(/|$)' is appended; TAIL = the bool variable (set in the
+    # segment loop, hence with several definitions) under whose false edge a boundary suffix is appended
+    PFX = set(l for bb in pfx for l in locals_guarding(parse, bb, True) if parse.locals[l]["k"] == "arg")
+    TAIL = set(l for bb in pfx + dollar for l in locals_guarding(parse, bb, False) if parse.locals[l]["k"] == "var" and len(parse.defs().get(l, [])) >= 2)
+    ck.anchor("C10-b", len(PFX), 1, "bool parameter guarding the '(/|$)' suffix (is-prefix)")
+    ck.anchor("C10-b", len(TAIL), 1, "bool variable guarding the boundary suffix (has-tail-segment)")
     for r_ in rn:
         # assume !has_tail_segment: every path passes one of the two suffixes
-        rem = edges_where(parse, var_edge("has_tail_segment", True))
+        rem = edges_where(parse, var_edge(TAIL, True))
         r = parse.reach([0], removed=set(dollar) | set(pfx), removed_edges=rem | parse.dead_edges())
         ck.ob("C10-b.boundary-suffix", "non-tail", bool(dollar) and bool(pfx) and r_ not in r, parse, r_, "assuming no tail segment, Regex::new is reached only after appending '$' or '(/|$)'")
-        r1 = parse.reach([0], removed=set(pfx), removed_edges=rem | edges_where(parse, var_edge("is_prefix", False)) | parse.dead_edges())
+        r1 = parse.reach([0], removed=set(pfx), removed_edges=rem | edges_where(parse, var_edge(PFX, False)) | parse.dead_edges())
         ck.ob("C10-b.boundary-suffix", "prefix", bool(pfx) and r_ not in r1, parse, r_, "... for a prefix resource specifically '(/|$)' (a prefix stops only at a segment boundary)")
-        r2 = parse.reach([0], removed=set(dollar), removed_edges=rem | edges_where(parse, var_edge("is_prefix", True)) | parse.dead_edges())
+        r2 = parse.reach([0], removed=set(dollar), removed_edges=rem | edges_where(parse, var_edge(PFX, True)) | parse.dead_edges())
         ck.ob("C10-b.boundary-suffix", "exact", bool(dollar) and r_ not in r2, parse, r_, "... for a non-prefix resource specifically '$'")
     # flags + anchor + group wrapper: literals of the format! calls
     lits = [k[3] for b2 in prog.with_closures(parse) for bb, i, s in b2.assigns() for k in e_consts(b2.rv_expr(s["rv"], 3)) if k[3] is not None]
